@@ -4,14 +4,15 @@ import core, gen, gen_units as G, canon, e2e
 from core import hx, unhx
 
 LEAN_MODULE = 'QM.Props.C12'
-THEOREMS = ['Inst.C12_dirlink_parts', 'Inst.C12_dirlink_inside', 'Inst.C12_alias_inside', 'Inst.C12_resolves', 'Inst.C12_target_parts',
+THEOREMS = ['Inst.C12_dirlink_parts', 'Inst.C12_dirlink_inside', 'Inst.C12_alias_inside', 'Inst.C12_alias_string', 'Inst.C12_resolves', 'Inst.C12_target_parts',
             'Inst.C12_template_without_default', 'Inst.C12_slash_names_ignored', 'Inst.C12_no_default_instance_with_slash']
 ASSUMPTIONS = [
     'Inst.linkPaths / Inst.target model enable_service_file (main.rs); tied to the code by running the real function through the hook on a scratch output directory and comparing the links it created (path and target) with the model\'s plan',
     'containment is lexical over an output directory that holds no symlinks leading elsewhere; the file-system effects themselves (create_dir_all, remove_file, symlink) are runtime behaviour and are checked on real runs with a full before/after snapshot of a sandbox that contains the output directory and decoy files beside it',
 ]
 LEVEL_TEXT = ('Proof (link planning) + end-to-end check (effects): Lean theorems over the model of enable_service_file — a WantedBy/RequiredBy link has '
-              'exactly the two parts <unit>.wants|.requires / <service> and no ".." part; an accepted Alias consists of plain names only; names with a '
+              'exactly the two parts <unit>.wants|.requires / <service> and no ".." part; an Alias accepted by the test on the cleaned *string* is relative and every part of it, as the kernel resolves the path, is a plain '
+              'name — no "..", "." or empty part (C12_alias_string: components → clean stack → rendering → parts, for every string); names with a '
               'path separator contribute nothing; a template without (usable) DefaultInstance gets no WantedBy/RequiredBy links; the relative target '
               '"../"×depth + service resolves to OUT/<service> for every output directory and nesting depth (induction over the parts). The effects '
               'on the file system are partial with respect to the runtime: they are checked on real runs with decoy files and realpath of every link.')
